@@ -105,7 +105,7 @@ func runC19RTO(sc c19RTO) (c vfCase) {
 // ---- (b) rtxTimer / ackTimer state machines in a bubble ----
 
 type c19TimerOp struct {
-	K      int `json:"k"`  // 0 wait, 1 start, 2 stop, 3 close
+	K      int `json:"k"` // 0 wait, 1 start, 2 stop, 3 close
 	WaitMs int `json:"w,omitempty"`
 	RTO    int `json:"rto,omitempty"`
 }
